@@ -28,7 +28,9 @@ A_FILES = {"a.f90": ["module kinds", "type tol_t", "real :: abs_tol", "end type 
                      "module shared", "integer :: s", "end module shared",
                      # a facade that re-exports another module's type under a new name: B sees it only under that name
                      "module base_m", "type base_t", "integer :: b", "end type base_t", "end module base_m",
-                     "module facade", "use base_m, only: root_t => base_t", "public", "end module facade"]}
+                     "module facade", "use base_m, only: root_t => base_t", "public", "end module facade",
+                     # the same through a default-private facade with an explicit public list naming the LOCAL name
+                     "module facade2", "use base_m, only: root2_t => base_t", "private", "public :: root2_t", "end module facade2"]}
 PSET = dict(proc_internals=True, display=["public", "private", "protected"])
 
 
@@ -50,7 +52,7 @@ LOCAL_SHARED = [("type shared", True), ("type Shared", True), ("type unshared", 
 
 def _b_files(mk, uk, ls):
     return {"b.f90": [mk, "type tol_t", "real :: rel_tol", "end type tol_t", ls, "integer :: q", "end type", "end module",
-                      "module app", uk, "use geom", "use facade, only: root_t", "type(tol_t) :: v", "type(shape) :: w", "type(root_t) :: z",
+                      "module app", uk, "use geom", "use facade, only: root_t", "use facade2", "type(tol_t) :: v", "type(shape) :: w", "type(root_t) :: z", "type(root2_t) :: z2",
                       "end module app"]}
 
 
@@ -66,7 +68,7 @@ def _observe(p):
     for u in app.uses:
         nm = getattr(u, "name", u)
         is_geom = choice.apply(lambda n: str(n).lower() == "geom", nm)
-        is_facade = choice.apply(lambda n: str(n).lower() == "facade", nm)
+        is_facade = choice.apply(lambda n: str(n).lower() in ("facade", "facade2"), nm)
         if is_facade is True:
             continue
         used["geom" if is_geom is True else "kinds"] = _classify(u)
@@ -76,12 +78,13 @@ def _observe(p):
             "type(tol_t)": choice.apply(_classify, vs[0].proto[0]) if vs and vs[0].proto else "unresolved",
             "type(shape)": choice.apply(_classify, vs[1].proto[0]) if len(vs) > 1 and vs[1].proto else "unresolved",
             "type(root_t)": choice.apply(_classify, vs[2].proto[0]) if len(vs) > 2 and vs[2].proto else "unresolved",
+            "type(root2_t)": choice.apply(_classify, vs[3].proto[0]) if len(vs) > 3 and vs[3].proto else "unresolved",
             "find(shared)": "none" if found is None else choice.apply(_classify, found)}
 
 
 def rule(local_kinds, local_shared):
     return {"use kinds": "local" if local_kinds else "external", "use geom": "external",
-            "type(tol_t)": "local" if local_kinds else "external", "type(shape)": "external", "type(root_t)": "external",
+            "type(tol_t)": "local" if local_kinds else "external", "type(shape)": "external", "type(root_t)": "external", "type(root2_t)": "external",
             "find(shared)": "local" if local_shared else "external"}
 
 
@@ -124,7 +127,7 @@ def local_first(ctx):
             E.reachable("correlated")
             want = choice.apply(rule, mk[1], ls[1])
             h.want = want
-            for k in ("use kinds", "use geom", "type(tol_t)", "type(shape)", "type(root_t)", "find(shared)"):
+            for k in ("use kinds", "use geom", "type(tol_t)", "type(shape)", "type(root_t)", "type(root2_t)", "find(shared)"):
                 E.require(choice.apply(lambda g, w_, k=k: g == w_[k], got[k], want), f"{k}: wrong side (local/external) chosen")
 
         E = sym.Engine(ctx, max_paths=20000, incremental=True)
